@@ -1,4 +1,155 @@
 --------------------------- MODULE RedoSysProps ---------------------------
-(* Properties of RedoSys (filled in below). *)
+(***************************************************************************)
+(* The listed properties, formalised over RedoSys.                         *)
+(* Reference semantics (Ideal, MustRun) are defined from the *program* and *)
+(* the ghost history gh, never from the implementation-shaped database w.  *)
+(***************************************************************************)
 EXTENDS RedoSys
+
+LastH == hist[Len(hist)]
+AfterCmd == Quiet /\ hist # << >> /\ LastH.a = "cmd"
+AfterOk  == AfterCmd /\ LastH.rc = 0
+
+SetMin(S) == CHOOSE x \in S : \A y \in S : x <= y
+SetMax(S) == CHOOSE x \in S : \A y \in S : x >= y
+
+UserOwned(n) == fs[n].ex /\ fs[n].own = "user"
+
+\* the rule redo must use for t now: first existing candidate (C13)
+ChosenDo(t) ==
+    LET idx == {i \in 1..Len(Cands[t]) : fs[Cands[t][i]].ex} IN
+    IF idx = {} THEN "" ELSE Cands[t][SetMin(idx)]
+
+HasRule(t) == ChosenDo(t) # "" /\ t \in DOMAIN Rules[ChosenDo(t)][DoVer(ChosenDo(t))]
+RuleOps(t) == Rules[ChosenDo(t)][DoVer(ChosenDo(t))][t]
+
+\* a file redo may (re)produce now: not the user's, and a rule exists
+Buildable(t) == t \in Plain /\ ~UserOwned(t) /\ HasRule(t)
+
+OutIdx(ops) == {i \in 1..Len(ops) : ops[i].op = "out"}
+
+(***************************************************************************)
+(* C01: from-scratch content                                               *)
+(***************************************************************************)
+RECURSIVE Ideal(_)
+Ideal(n) ==
+    IF ~Buildable(n) THEN ReadVal(n)
+    ELSE LET ops == RuleOps(n) IN
+         IF OutIdx(ops) = {} THEN NoVal
+         ELSE LET o == ops[SetMax(OutIdx(ops))] IN
+              [n |-> n, k |-> ChosenDo(n), v |-> DoVer(ChosenDo(n)),
+               d |-> [i \in 1..Len(o.args) |-> Ideal(o.args[i])]]
+
+\* files a from-scratch build of n consults
+IdealDeps(n) ==
+    IF ~Buildable(n) THEN {}
+    ELSE LET ops == RuleOps(n) IN
+         UNION {{ops[i].args[k] : k \in 1..Len(ops[i].args)} :
+                    i \in {i \in 1..Len(ops) : ops[i].op \in {"ifchange", "watch", "out"}}}
+
+RECURSIVE Clo(_, _)
+Clo(S, k) == IF k = 0 THEN S ELSE Clo(S \cup UNION {IdealDeps(n) : n \in S}, k - 1)
+Closure(S) == Clo(S, Cardinality(Plain))
+
+Fresh ==
+    AfterOk => \A n \in Closure({LastH.targs[i] : i \in 1..Len(LastH.targs)}) :
+                   ReadVal(n) = Ideal(n)
+
+(***************************************************************************)
+(* C02 / C03 / C14: the reference rebuild set                              *)
+(***************************************************************************)
+Stamped(n) == gh.seen[n].built /\ gh.seen[n].stamped
+
+RECURSIVE MustRun(_)
+\* would bringing dependency n up to date give it a new content generation?
+WillChange(n) ==
+    /\ n \in Plain /\ MustRun(n)
+    /\ ~Stamped(n) \/ Ideal(n) # gh.seen[n].val
+
+\* redo may touch t: it is not the user's, and a rule exists or redo produced it
+\* (a produced file whose rule vanished is re-decided once: it becomes a source)
+RedoMay(t) == t \in Plain /\ ~UserOwned(t) /\ (HasRule(t) \/ gh.seen[t].built)
+
+MustRun(t) ==
+    LET sn == gh.seen[t] IN
+    /\ RedoMay(t)
+    /\ \/ ~sn.built                                   \* never built, or failed last time
+       \/ gh.cg[t] # sn.out                           \* its file was removed (edits make it the user's)
+       \/ \E d \in sn.deps :
+             \/ d.n = ALWAYS
+             \/ d.m = "c" /\ fs[d.n].ex
+             \/ d.m = "m" /\ d.n # ALWAYS /\ (gh.cg[d.n] # d.g \/ WillChange(d.n))
+
+\* no over-build: a script is started only for a target the reference says must run
+\* (forced `redo` builds exempt).  Checked on every step that extends `ran`.
+NoOverBuild ==
+    [][(ran' # ran /\ ran' # << >> /\ cmd.kind = "ifchange") => MustRun(ran'[Len(ran')])]_vars
+
+\* no under-build: after a successful command nothing in the closure must still run
+\* (redo-always targets excepted: they must run in every run)
+AlwaysTarget(t) == \E d \in gh.seen[t].deps : d.n = ALWAYS
+OnAlways(n) == \E m \in Closure({n}) \cap Plain : AlwaysTarget(m)
+NoUnderBuild ==
+    AfterOk => \A n \in Closure({LastH.targs[i] : i \in 1..Len(LastH.targs)}) \cap Plain :
+                   OnAlways(n) \/ ~MustRun(n)
+
+\* at most once per run (C05, C07, C14)
+NoDupRun == \A i, k \in 1..Len(ran) : i # k => ran[i] # ran[k]
+
+(***************************************************************************)
+(* C04 / C11                                                               *)
+(***************************************************************************)
+\* redo itself never replaces or removes a file the user owns
+NoTrample ==
+    [][\A n \in Plain : (fs[n].ex /\ fs[n].own = "user" /\ fs'[n] # fs[n])
+                            => (hist' # hist \/ fs'[n].own = "script")]_vars
+
+\* a target changes, by redo's hand, only to the complete output of a script that exited 0
+OnlyCompleteOutput ==
+    [][\A n \in Plain : (fs'[n] # fs[n] /\ hist' = hist /\ fs'[n].own # "script")
+            => \/ fs'[n].ex /\ fs'[n].own = "redo"
+                   /\ \E p \in DOMAIN procs : \E j \in procs[p].jobs :
+                         j.t = n /\ j.st = "exited" /\ j.rv = 0 /\ fs'[n].val = j.val
+                         /\ (j.std \/ j.file) /\ ~(j.std /\ j.file)
+               \/ ~fs'[n].ex
+                   /\ \E p \in DOMAIN procs : \E j \in procs[p].jobs :
+                         j.t = n /\ j.st = "exited" /\ j.rv = 0 /\ ~j.std /\ ~j.file]_vars
+
+NoTmpLeft == Quiet => tmp = {}
+
+(***************************************************************************)
+(* C05                                                                     *)
+(***************************************************************************)
+FailPropagates == AfterOk => gh.fails = {}
+
+\* transitive requesters of f according to the recorded edges
+RECURSIVE Req(_, _)
+Req(S, k) == IF k = 0 THEN S
+             ELSE Req(S \cup {x.t : x \in {x \in w.edges : x.s \in S}}, k - 1)
+
+NoCleanOverFailed ==
+    AfterCmd => \A f \in gh.fails : \A t \in Req({f}, Cardinality(Plain)) :
+        IsDirty(w, [fs |-> fs, rid |-> runid + 1, q |-> FALSE], t).v # "clean"
+
+(***************************************************************************)
+(* C17                                                                     *)
+(***************************************************************************)
+KnownFiles == {n \in Files : w.ids[n] # 0}
+QEnv == [fs |-> fs, rid |-> runid + 1, q |-> TRUE]
+
+TargetsSourcesPartition ==
+    Quiet => LET tg == QueryOut("targets", runid + 1)
+                 sr == QueryOut("sources", runid + 1)
+             IN /\ tg \cap sr = {}
+                /\ tg \cup sr = {n \in KnownFiles : fs[n].ex \/ w.db[n].gen}
+
+\* lower bound: whatever redo-ifchange would run is listed
+OodLower == Quiet => \A t \in QueryOut("targets", runid + 1) :
+                        (MustRun(t) /\ ~Stamped(t)) => t \in QueryOut("ood", runid + 1)
+
+OodEmptyAfterBuild ==
+    AfterOk => \A n \in Closure({LastH.targs[i] : i \in 1..Len(LastH.targs)}) \cap Plain :
+                   AlwaysTarget(n) \/ n \notin QueryOut("ood", runid + 1)
+                   \/ \E m \in Closure({n}) \cap Plain : AlwaysTarget(m)
+
 =============================================================================
